@@ -16,7 +16,8 @@
                        code carries it as a hypothesis; it delimits where the code before the repair failed. *)
 From LV Require Import Base.Bytes Model.Obj Model.DocQ Model.PageTree Model.Traverse Model.Renumber Model.RenumberV0 Model.RenumberV1
   Spec.RenumberSpec Proofs.RenumberProofsTrav Proofs.RenumberProofsTravO Proofs.RenumberProofsDense Proofs.RenumberProofsTop
-  Proofs.RenumberProofsMain.
+  Proofs.RenumberProofsMain Proofs.RenumberProofsMerge.
+From LV Require Import Model.Save Model.Xref Model.Loader Proofs.ObjectRtProofs Spec.SaveSpec Proofs.RenumberProofsLoad.
 
 (* (1) Renumbering from ANY start value that fits terminates normally and changes identifiers only -- for EVERY
    document (no hypothesis on dangling references any more): there is a renaming rho, one-to-one on the ids
@@ -218,6 +219,99 @@ Theorem C10_u32_v0_refuted :
               map fst (d_objects (base d')) = [(4294967295, 0)]%N /\ d_max_id (base d') = 4294967295%N).
 Proof. exact u32_v0_refuted. Qed.
 
+(* (10) The page counter `i: i32` of renumber_objects_with (one `i += 1` per distinct page, overflow-checked) is part
+   of the model the correspondence runs (renumber_objects_with_i32).  page_iter yields at most one id per object, so
+   below 2^31 objects the counter is exact and theorems (1)-(4) are about the code as it is; with more than i32::MAX
+   distinct pages the call panics before it changes anything. *)
+Theorem C10_page_counter :
+  forall start d,
+    ((N.of_nat (length (d_objects (base d))) <= I32_MAX)%N ->
+     renumber_objects_with_i32 start d = renumber_objects_with start d) /\
+    ((I32_MAX < N.of_nat (length (dedup_oids [] (page_iter (base d)))))%N -> renumber_objects_with_i32 start d = Panic) /\
+    length (dedup_oids [] (page_iter (base d))) <= length (d_objects (base d)).
+Proof.
+  intros start d. split; [apply page_counter|]. split; [apply page_counter_panics|].
+  pose proof (dedup_length (page_iter (base d)) []). pose proof (page_iter_length (base d)). lia.
+Qed.
+
+(* (11) Composition with C01 (save / load round trip).  [writable]: the part of C01's domain [savable] that does not
+   speak about object numbers or max_id (binary mark, version, generations <= 65535, objects and trailer well formed,
+   no Prev / Encrypt).  Renumbering a writable document from start >= 1 (two spare numbers below 2^32) gives a document
+   in C01's domain -- even when the old numbering was not (one number under several generations) -- and keeps it outside
+   C01's nesting class; hence renumber ; save ; load returns the renumbered document, in either cross-reference format. *)
+Theorem C10_renumber_savable :
+  forall start d,
+    sorted_keys (d_objects (base d)) -> (1 <= start)%N ->
+    (start + N.of_nat (length (d_objects (base d))) + 1 < u32_mod)%N ->
+    writable (base d) ->
+    exists d', renumber_objects_with start d = Done d' /\ savable (base d') /\
+               (known_deep (base d) = false -> known_deep (base d') = false).
+Proof. exact renumber_savable. Qed.
+
+Theorem C10_renumber_save_load :
+  forall xt start d,
+    sorted_keys (d_objects (base d)) -> (1 <= start)%N ->
+    (start + N.of_nat (length (d_objects (base d))) + 1 < u32_mod)%N ->
+    writable (base d) -> known_deep (base d) = false ->
+    exists d', renumber_objects_with start d = Done d' /\
+      (small_file xt (base d') -> cycles_fit xt (base d') ->
+       load (so_bytes (save xt (base d'))) = LOk (reloaded xt (base d')) (xtype_of xt) /\
+       same_doc (base d') (reloaded xt (base d'))).
+Proof. exact renumber_save_load. Qed.
+
+Theorem C10_savable_is_writable : forall d, savable d -> writable d.
+Proof. exact savable_writable. Qed.
+
+(* non-vacuity of (11): ex_gens (number 5 under generations 0 and 1, pages out of id order) is writable but NOT savable;
+   renumbered from 1 it is savable and the saved file loads back as the renumbered document *)
+Theorem C10_save_load_example :
+  writable (base ex_gens) /\ ~ savable (base ex_gens) /\ known_deep (base ex_gens) = false /\
+  exists d', renumber_objects_with 1 ex_gens = Done d' /\ savable (base d') /\
+    map fst (d_objects (base d')) = [(1,0); (2,0); (3,0); (4,1); (5,0); (6,0)]%N /\
+    load (so_bytes (save XTable (base d'))) = LOk (reloaded XTable (base d')) XTTable /\
+    same_doc (base d') (reloaded XTable (base d')).
+Proof. exact ex_gens_save_load. Qed.
+
+(* (12) The README merge example: each document is renumbered from the previous document's max_id + 1 (the first from
+   s >= 1) and the objects are collected in one map (BTreeMap::extend).  The second start value is s + n1, the two
+   number ranges are [s, s+n1) and [s+n1, s+n1+n2): no number occurs in both documents; the union is sorted, its keys
+   are the keys of the first document followed by those of the second, its numbers are s .. s+n1+n2-1; every object of
+   either document is in the union unchanged; and the graph reachable from either trailer in the union is exactly the
+   graph reachable in its own document -- no reference of one document resolves into the other (this needs that no
+   reachable reference is dangling after renumbering, which the repair of dangling-in-range provides: before it, a
+   dangling `k 0 R` of the first document would resolve to an object of the second one). *)
+Theorem C10_merge_disjoint :
+  forall s d1 d2,
+    sorted_keys (d_objects (base d1)) -> sorted_keys (d_objects (base d2)) -> (1 <= s)%N ->
+    (s + N.of_nat (length (d_objects (base d1))) + N.of_nat (length (d_objects (base d2))) <= 4294967296)%N ->
+    exists d1' d2',
+      renumber_objects_with s d1 = Done d1' /\
+      renumber_objects_with (d_max_id (base d1') + 1) d2 = Done d2' /\
+      let n1 := length (d_objects (base d1)) in let n2 := length (d_objects (base d2)) in
+      let m1 := d_objects (base d1') in let m2 := d_objects (base d2') in
+      let U := insert_all m2 m1 in
+      (d_max_id (base d1') + 1 = s + N.of_nat n1)%N /\
+      numbers m1 = nums_from s n1 /\ numbers m2 = nums_from (s + N.of_nat n1) n2 /\
+      (forall x y, has_obj m1 x -> has_obj m2 y -> fst x <> fst y) /\
+      sorted_keys U /\ map fst U = map fst m1 ++ map fst m2 /\ numbers U = nums_from s (n1 + n2) /\
+      (forall x, has_obj m1 x -> lookup U x = lookup m1 x) /\
+      (forall x, has_obj m2 x -> lookup U x = lookup m2 x) /\
+      (forall x, reach (d_trailer (base d1')) U x <-> reach (d_trailer (base d1')) m1 x) /\
+      (forall x, reach (d_trailer (base d2')) U x <-> reach (d_trailer (base d2')) m2 x) /\
+      (n2 <> 0%nat -> (d_max_id (base d2') = s + N.of_nat n1 + N.of_nat n2 - 1)%N).
+Proof. exact merge_two. Qed.
+
+Theorem C10_merge_example :
+  sorted_keys (d_objects (base ex_swap)) /\ sorted_keys (d_objects (base ex_dangling)) /\
+  exists d1' d2',
+    renumber_objects_with 1 ex_swap = Done d1' /\
+    renumber_objects_with (d_max_id (base d1') + 1) ex_dangling = Done d2' /\
+    map fst (insert_all (d_objects (base d2')) (d_objects (base d1'))) =
+      [(1,0); (2,0); (3,0); (4,0); (5,1); (6,0); (7,0); (8,0); (9,0); (10,0)]%N /\
+    d_trailer (base d2') = [(K_Root, ORef 6 0); (bs "Nine", ORef 10 0)]%N /\
+    page_iter (base d1') = [(3,0); (5,1)]%N /\ page_iter (base d2') = [(8,0); (9,0)]%N.
+Proof. exact merge_example. Qed.
+
 Print Assumptions C10_renumber_iso.
 Print Assumptions C10_renumber_dense.
 Print Assumptions C10_renumber_objects.
@@ -234,3 +328,10 @@ Print Assumptions C10_bookmarks_v0_refuted.
 Print Assumptions C10_page_twice_v0_refuted.
 Print Assumptions C10_page_generations_v0_refuted.
 Print Assumptions C10_u32_v0_refuted.
+Print Assumptions C10_page_counter.
+Print Assumptions C10_renumber_savable.
+Print Assumptions C10_renumber_save_load.
+Print Assumptions C10_savable_is_writable.
+Print Assumptions C10_save_load_example.
+Print Assumptions C10_merge_disjoint.
+Print Assumptions C10_merge_example.
